@@ -1,3 +1,396 @@
-use crate::report::ReplayFile;
-pub fn replay(_f: &ReplayFile) -> Result<Option<(String, String)>, String> { Err("todo".into()) }
-pub fn cmd(_args: &[String], _tier: &str, _seed: u64, _out: &str, _rd: &str) -> i32 { 2 }
+//! C20: long capture-free games.  Part 1 (black box): a child process plays N turns and then
+//! clones, queries and drops the state on a thread with a bounded stack; the parent reads the exit
+//! status.  Part 2 (probe, hooked build): the seam counts nested drops of the history list's
+//! links; the count must not grow with the history length.
+use crate::bridge::*;
+use crate::model::*;
+use crate::report::*;
+use crate::rng::{Fp, Rng};
+use arimaa_engine_step::{Action, GameState};
+use serde_json::{json, Value};
+use std::collections::HashMap;
+use std::time::Instant;
+
+// The two armies stay in their own thirds of the board (Gold ranks 1-3, Silver ranks 6-8), so no
+// piece is ever adjacent to an enemy: nothing freezes, nothing can be captured.
+const START: &str = "2g\n +-----------------+\n8|               r |\n7|   e   m   h     |\n6|     x     x     |\n5|                 |\n4|                 |\n3|     x     x     |\n2|   M   E   H     |\n1| R               |\n +-----------------+\n   a b c d e f g h\n";
+
+pub struct LongGame {
+    pub gs: GameState,
+    pub m: Model,
+    seen: HashMap<u64, u8>,
+    pub turns: u64,
+    pub cross_checks: u64,
+    rng: Rng,
+}
+
+fn pos_fp(b: &Board, side: Side) -> u64 {
+    let mut f = Fp::new();
+    f.bytes(&board_key(b));
+    f.u8(side as u8);
+    f.finish()
+}
+
+impl LongGame {
+    pub fn new(seed: u64) -> Result<LongGame, String> {
+        let (b, s, mv) = parse_diagram(START).ok_or("start diagram")?;
+        let gs: GameState = START.parse().map_err(|e| format!("{}", e))?;
+        let mut seen = HashMap::new();
+        seen.insert(pos_fp(&b, s), 1u8);
+        Ok(LongGame { gs, m: Model::from_position(b, s, mv), seen, turns: 0, cross_checks: 0, rng: Rng::new(seed) })
+    }
+
+    /// play one turn: one non-capturing step of an own non-rabbit piece that avoids trap squares
+    /// and does not run into the repetition rules, then a pass
+    pub fn turn(&mut self, cross_check: bool) -> Result<(), String> {
+        let side = self.m.side;
+        let mut cands: Vec<(Act, Board)> = vec![];
+        for a in self.m.legal() {
+            if let Act::Step(q, d) = a {
+                let own = matches!(self.m.board[q.0 as usize], Some((s, k)) if s == side && k != Kind::R);
+                let t = q.step(d).unwrap();
+                let home = if side == Side::Gold { t.rank() <= 3 } else { t.rank() >= 6 };
+                if !own || t.is_trap() || !home {
+                    continue;
+                }
+                if let Ok((nb, caps)) = self.m.board_after(q, d) {
+                    if caps.is_empty() && self.seen.get(&pos_fp(&nb, side.other())).copied().unwrap_or(0) < 2 {
+                        cands.push((a, nb));
+                    }
+                }
+            }
+        }
+        if cands.is_empty() {
+            return Err(format!("generator stuck after {} turns\n{}", self.turns, self.m.diagram()));
+        }
+        let (a, nb) = cands[self.rng.below(cands.len())];
+        let ea: Action = a.text().parse().map_err(|e| format!("{}", e))?;
+        if cross_check {
+            self.cross_checks += 1;
+            if !self.gs.valid_actions().contains(&ea) {
+                return Err(format!("cross-check: {} not offered after {} turns", a.text(), self.turns));
+            }
+        }
+        self.gs = self.gs.take_action(&ea);
+        self.m.apply(a)?;
+        if cross_check && !self.gs.valid_actions().contains(&Action::Pass) {
+            return Err(format!("cross-check: pass not offered after {} turns", self.turns));
+        }
+        self.gs = self.gs.take_action(&Action::Pass);
+        self.m.apply(Act::Pass)?;
+        debug_assert!(nb == self.m.board);
+        *self.seen.entry(pos_fp(&self.m.board, self.m.side)).or_insert(0) += 1;
+        self.turns += 1;
+        Ok(())
+    }
+}
+
+fn query_all(gs: &GameState) -> u64 {
+    let mut f = Fp::new();
+    for a in gs.valid_actions() {
+        f.str(&a.to_string());
+    }
+    f.u8(gs.is_terminal().is_some() as u8);
+    f.u8(gs.can_pass(true) as u8);
+    f.u8(gs.has_move(gs.piece_board()).is_some() as u8);
+    f.u64(gs.transposition_hash());
+    f.u64(gs.unwrap_play_phase().hash_history().len() as u64);
+    f.finish()
+}
+
+/// what the child does on its bounded-stack thread
+fn child_body(n: u64, seed: u64) -> Result<String, String> {
+    let mut g = LongGame::new(seed)?;
+    let every = (n / 40).max(1);
+    let mut mid: Option<GameState> = None;
+    for i in 0..n {
+        g.turn(i % every == 0)?;
+        if i == n / 2 {
+            mid = Some(g.gs.clone());
+        }
+    }
+    let decoded = decode_board(g.gs.piece_board())?;
+    if decoded != g.m.board {
+        return Err("board mismatch at the end of the long game".into());
+    }
+    let hist = g.gs.unwrap_play_phase().hash_history().len();
+    let d0 = query_all(&g.gs);
+    let c = g.gs.clone();
+    let d1 = query_all(&c);
+    if d0 != d1 {
+        return Err("clone answers differently".into());
+    }
+    // release order chosen by the seed: clone first or original first, older branch before or after
+    let order = seed % 4;
+    let LongGame { gs, .. } = g;
+    match order {
+        0 => {
+            drop(c);
+            drop(gs);
+            drop(mid);
+        }
+        1 => {
+            drop(gs);
+            drop(c);
+            drop(mid);
+        }
+        2 => {
+            drop(mid);
+            drop(c);
+            drop(gs);
+        }
+        _ => {
+            drop(gs);
+            drop(mid);
+            drop(c);
+        }
+    }
+    Ok(format!("turns={} history_len={} digest={:016x}", n, hist, d0))
+}
+
+pub fn cmd_child(n: u64, stack: usize, seed: u64) -> i32 {
+    let h = std::thread::Builder::new().stack_size(stack).spawn(move || child_body(n, seed)).expect("spawn");
+    match h.join() {
+        Ok(Ok(s)) => {
+            println!("STACK-CHILD-OK {}", s);
+            0
+        }
+        Ok(Err(e)) => {
+            println!("STACK-CHILD-GENERATOR-PROBLEM {}", e);
+            3
+        }
+        Err(_) => {
+            println!("STACK-CHILD-PANIC");
+            4
+        }
+    }
+}
+
+#[derive(Debug)]
+enum ChildResult {
+    Ok(String),
+    Crashed(String),
+    Other(String),
+}
+
+fn run_child(n: u64, stack: usize, seed: u64) -> ChildResult {
+    let exe = match std::env::current_exe() {
+        Ok(e) => e,
+        Err(e) => return ChildResult::Other(e.to_string()),
+    };
+    let out = match std::process::Command::new(exe).args(["stack", "child", &n.to_string(), &stack.to_string(), &seed.to_string()]).output() {
+        Ok(o) => o,
+        Err(e) => return ChildResult::Other(e.to_string()),
+    };
+    let stdout = String::from_utf8_lossy(&out.stdout).to_string();
+    let stderr = String::from_utf8_lossy(&out.stderr).to_string();
+    use std::os::unix::process::ExitStatusExt;
+    if let Some(sig) = out.status.signal() {
+        let last = stderr.lines().last().unwrap_or("").to_string();
+        return ChildResult::Crashed(format!("child killed by signal {} ({})", sig, last));
+    }
+    match out.status.code() {
+        Some(0) if stdout.contains("STACK-CHILD-OK") => ChildResult::Ok(stdout.trim().to_string()),
+        Some(4) => ChildResult::Crashed(format!("child thread panicked: {}", stderr.lines().last().unwrap_or(""))),
+        c => ChildResult::Other(format!("exit {:?}: {} {}", c, stdout.trim(), stderr.lines().last().unwrap_or(""))),
+    }
+}
+
+pub fn replay(f: &ReplayFile) -> Result<Option<(String, String)>, String> {
+    let n = f.v["turns"].as_u64().ok_or("no turns")?;
+    let stack = f.v["stack_bytes"].as_u64().ok_or("no stack_bytes")? as usize;
+    let seed = f.v["child_seed"].as_u64().unwrap_or(1);
+    match run_child(n, stack, seed) {
+        ChildResult::Ok(_) => Ok(None),
+        ChildResult::Crashed(d) => Ok(Some(("stack.child_exit_status".to_string(), d))),
+        ChildResult::Other(e) => Err(e),
+    }
+}
+
+fn cmd_children(tier: &str, seed: u64, out: &str, replay_dir: &str) -> i32 {
+    let t0 = Instant::now();
+    let thorough = tier == "thorough";
+    let mut rng = Rng::new(seed ^ 0xC20);
+    // fixed corner cases first, then randomised (N, S)
+    let mut plan: Vec<(u64, usize)> = vec![(100, 256 << 10), (3_000, 256 << 10), (30_000, 256 << 10), (100_000, 2 << 20), (200_000, 2 << 20), (300_000, 1 << 20)];
+    if thorough {
+        plan.push((1_000_000, 256 << 10));
+        plan.push((1_000_000, 2 << 20));
+        plan.push((600_000, 8 << 20));
+    }
+    let extra = if thorough { 40 } else { 7 };
+    for _ in 0..extra {
+        let n = match rng.below(5) {
+            0 => 100 + rng.below(900) as u64,
+            1 => 1_000 + rng.below(9_000) as u64,
+            2 => 10_000 + rng.below(90_000) as u64,
+            3 => 100_000 + rng.below(if thorough { 400_000 } else { 100_000 }) as u64,
+            _ => 20_000 + rng.below(60_000) as u64,
+        };
+        let s = *rng.pick(&[256usize << 10, 1 << 20, 2 << 20, 2 << 20, 8 << 20]);
+        plan.push((n, s));
+    }
+    let results: Vec<(u64, usize, u64, ChildResult)> = std::thread::scope(|sc| {
+        let hs: Vec<_> = plan.iter().enumerate().map(|(i, (n, s))| {
+            let cs = seed.wrapping_mul(31).wrapping_add(i as u64);
+            let (n, s) = (*n, *s);
+            sc.spawn(move || (n, s, cs, run_child(n, s, cs)))
+        }).collect();
+        hs.into_iter().map(|h| h.join().unwrap()).collect()
+    });
+    let mut exit = 0;
+    let mut samples = vec![];
+    let mut total_turns = 0u64;
+    let mut distinct = std::collections::BTreeSet::new();
+    for (n, s, cs, r) in &results {
+        samples.push(json!({"turns": n, "stack_bytes": s, "child_seed": cs, "result": format!("{:?}", r)}));
+        match r {
+            ChildResult::Ok(_) => {
+                total_turns += n;
+                if *n >= 1000 {
+                    distinct.insert((*n, *s));
+                }
+            }
+            ChildResult::Other(e) => {
+                eprintln!("HARNESS-ERROR: stack child (turns {}, stack {}): {}", n, s, e);
+                return 2;
+            }
+            ChildResult::Crashed(d) => {
+                if exit == 0 {
+                    // report the smallest crashing history
+                    let worst = results.iter().filter(|x| matches!(x.3, ChildResult::Crashed(_))).min_by_key(|x| x.0).unwrap();
+                    let path = format!("{}/C20-{}-{}.json", replay_dir, seed, worst.0);
+                    let v = json!({"mode": "stack", "property": "C20", "monitor": "stack.child_exit_status", "detail": d, "turns": worst.0, "stack_bytes": worst.1, "child_seed": worst.2, "seed": seed, "repo_src_hash": repo_hash(), "how_to_replay": "cd /verif && ./run replay <this file>"});
+                    if (ReplayFile { v }).write(&path).is_err() {
+                        return 2;
+                    }
+                    println!("violation: property C20: a child that played {} capture-free turns and then cloned, queried and dropped the state on a {}-byte stack died: {}", worst.0, worst.1, d);
+                    println!("VIOLATION property=C20 replay={}", path);
+                    exit = 1;
+                }
+            }
+        }
+    }
+    let wall = t0.elapsed().as_secs_f64();
+    let part = json!({
+        "part": "bounded_stack_children",
+        "evaluations": results.len(),
+        "distinct_nontrivial": distinct.len(),
+        "rule": "each case = one child process that plays N legal capture-free turns (generated by the reference model, cross-checked against valid_actions() at 40 points), then clones, queries, and drops the state, an older branch and the clone in a seed-chosen order on a thread with stack S; non-trivial = distinct (N >= 1000, S) pairs that completed",
+        "samples": samples,
+        "faults_injected_and_effective": {"fault.bounded_stack": results.len(), "fault.release_order_variants": 4},
+        "simulated_turns": total_turns,
+        "wall_s": wall,
+        "violations": exit,
+        "real_vs_stub": {"real": "GameState, history list, clone/drop/queries (shipped configuration)", "stub": "players (model-generated legal moves)"}
+    });
+    if std::fs::write(out, serde_json::to_string_pretty(&part).unwrap()).is_err() {
+        return 2;
+    }
+    println!("C20 child part: {} children, {} turns in total, {:.1}s", results.len(), total_turns, wall);
+    exit
+}
+
+/// drop-depth probe; needs the hooked build (the seam counts nested drops of list links)
+fn cmd_probe(tier: &str, seed: u64, out: &str, replay_dir: &str) -> i32 {
+    if !cfg!(arimaa_engine_step_verif) {
+        eprintln!("HARNESS-ERROR: the probe needs the hooked build");
+        return 2;
+    }
+    let t0 = Instant::now();
+    let sizes: &[u64] = if tier == "thorough" { &[10, 100, 1_000, 10_000, 100_000, 300_000] } else { &[10, 100, 1_000, 10_000, 50_000] };
+    let mut rows: Vec<Value> = vec![];
+    let mut worst = 0usize;
+    let mut worst_n = 0u64;
+    for (i, n) in sizes.iter().enumerate() {
+        // a deep recursion must not kill the probe itself: run on a big stack
+        let n = *n;
+        let h = std::thread::Builder::new().stack_size(1 << 30).spawn(move || -> Result<(usize, usize, usize, usize), String> {
+            let mut g = LongGame::new(seed.wrapping_add(i as u64))?;
+            let mut mid = None;
+            for t in 0..n {
+                g.turn(false)?;
+                if t == n / 2 {
+                    mid = Some(g.gs.clone());
+                }
+            }
+            verif_seam::take_max_drop_depth();
+            let c = g.gs.clone();
+            let _ = query_all(&c);
+            let d_query = verif_seam::take_max_drop_depth();
+            drop(c);
+            let d_clone = verif_seam::take_max_drop_depth();
+            let LongGame { gs, .. } = g;
+            drop(gs);
+            let d_state = verif_seam::take_max_drop_depth();
+            drop(mid);
+            let d_branch = verif_seam::take_max_drop_depth();
+            Ok((d_query, d_clone, d_state, d_branch))
+        }).expect("spawn");
+        match h.join() {
+            Ok(Ok((dq, dc, ds, db))) => {
+                let m = dq.max(dc).max(ds).max(db);
+                if m > worst {
+                    worst = m;
+                    worst_n = n;
+                }
+                rows.push(json!({"turns": n, "max_nested_link_drops": {"while_querying": dq, "dropping_clone": dc, "dropping_state": ds, "dropping_older_branch": db}}));
+            }
+            Ok(Err(e)) => {
+                eprintln!("HARNESS-ERROR: probe generator: {}", e);
+                return 2;
+            }
+            Err(_) => {
+                eprintln!("HARNESS-ERROR: probe thread panicked");
+                return 2;
+            }
+        }
+    }
+    let bound = 4usize;
+    let mut exit = 0;
+    if worst > bound {
+        let path = format!("{}/C20-{}-probe.json", replay_dir, seed);
+        let detail = format!("dropping a state with a history of {} turns nests {} link drops (bound {}, must not grow with the history)", worst_n, worst, bound);
+        let v = json!({"mode": "probe", "property": "C20", "monitor": "stack.drop_depth", "detail": detail, "turns": worst_n, "seed": seed, "rows": rows, "repo_src_hash": repo_hash(), "how_to_replay": "cd /verif && ./run C20 quick"});
+        if (ReplayFile { v }).write(&path).is_err() {
+            return 2;
+        }
+        println!("violation: property C20: {}", detail);
+        println!("VIOLATION property=C20 replay={}", path);
+        exit = 1;
+    }
+    let part = json!({
+        "part": "drop_depth_probe",
+        "evaluations": rows.len() * 4,
+        "distinct_nontrivial": rows.len(),
+        "rule": "for each history length N the seam counts the deepest nesting of list-link drops while querying a clone, dropping the clone, dropping the state and dropping an older branch; it must stay <= 4 for every N; non-trivial = distinct N",
+        "samples": rows,
+        "bound": bound,
+        "worst_observed": worst,
+        "wall_s": t0.elapsed().as_secs_f64(),
+        "violations": exit,
+        "real_vs_stub": {"real": "engine built with the guard: the list links through the seam's wrapper around std::sync::Arc", "stub": "players"}
+    });
+    if std::fs::write(out, serde_json::to_string_pretty(&part).unwrap()).is_err() {
+        return 2;
+    }
+    println!("C20 probe part: deepest nesting {} over history lengths {:?}", worst, sizes);
+    exit
+}
+
+pub fn cmd(args: &[String], tier: &str, seed: u64, out: &str, replay_dir: &str) -> i32 {
+    match args.first().map(|s| s.as_str()) {
+        Some("child") => {
+            let n: u64 = args.get(1).and_then(|x| x.parse().ok()).unwrap_or(100);
+            let s: usize = args.get(2).and_then(|x| x.parse().ok()).unwrap_or(2 << 20);
+            let cs: u64 = args.get(3).and_then(|x| x.parse().ok()).unwrap_or(1);
+            cmd_child(n, s, cs)
+        }
+        Some("children") => cmd_children(tier, seed, out, replay_dir),
+        Some("probe") => cmd_probe(tier, seed, out, replay_dir),
+        _ => {
+            eprintln!("usage: arena stack child <turns> <stack bytes> <seed> | children | probe");
+            2
+        }
+    }
+}
